@@ -23,7 +23,8 @@ RULE = ("kind q: histories of add (with re-adds)/remove/pop/peek/len over 2..40 
         "insert/pop/getitem/len/list at indices around sub-list borders; kind big: 23 000..40 000 tasks added (rank patterns "
         "descending / ascending / modular, optional re-adds and removals) to both classes at the REAL _size_factor=1520 and "
         "drained, judged by Spec.big_ok; churn histories (waves of growth and bursts of scattered removals / "
-        "re-prioritisations leaving hundreds of tombstones around a handful of live tasks, then a drain). Non-trivial (q) = a live task was re-added or "
+        "re-prioritisations leaving hundreds of tombstones around a handful of live tasks, then a drain); steady-state "
+        "histories (50-250 live entries popped and refilled for hundreds of operations). Non-trivial (q) = a live task was re-added or "
         "removed, a pop returned a task while another live task had the same priority, and the sorted back end held "
         ">= 2 sub-lists at some point; (b) = >= 2 sub-lists and a pop and an insert at the end. "
         "Distinct = distinct canonical case hash")
@@ -182,6 +183,42 @@ def _gen_churn(rng, tier):
     return {"kind": "q", "factor": factor, "ops": ops}
 
 
+def _gen_steady(rng, tier):
+    """event-loop regime: a queue kept at 50-250 live entries while it is popped and refilled for hundreds of
+    operations (new tasks, re-adds of live or already served tasks, occasional removals and peeks), then drained."""
+    long = tier != "quick"
+    factor = rng.choice([2, 4, 8, 16, 1520])
+    nprio = rng.choice([1, 2, 5, 30])
+    level = rng.randint(50, 250)
+    rounds = rng.randint(100, 250) if not long else rng.randint(200, 500)
+    ops, nxt = [], 0
+
+    def rank():
+        return rng.randrange(nprio) - 2
+    for _ in range(level):
+        ops.append(["add", nxt, rank(), rng.randrange(6)])
+        nxt += 1
+    for _ in range(rounds):
+        ops.append(["pop", None, 0])
+        r = rng.random()
+        if r < 0.6:
+            ops.append(["add", nxt, rank(), rng.randrange(6)])
+            nxt += 1
+        elif r < 0.85:
+            ops.append(["add", rng.randrange(nxt), rank(), rng.randrange(6)])   # live -> re-prioritised, served -> back in
+        elif r < 0.95:
+            ops.append(["remove", rng.randrange(nxt)])
+            ops.append(["add", nxt, rank(), rng.randrange(6)])
+            nxt += 1
+        else:
+            ops.append(["peek", 1, 1])
+        if rng.random() < 0.02:
+            ops.append(["len"])
+    ops.append(["len"])
+    ops += [["pop", 2, 1] for _ in range(level + rounds // 4 + 2)] + [["len"]]
+    return {"kind": "q", "factor": factor, "ops": ops}
+
+
 def _gen_big(rng, tier, i):
     n = rng.randint(23000, 26000) if tier == "quick" else rng.randint(23000, 40000)
     if i >= 2 and i % 3 == 2:
@@ -238,9 +275,10 @@ def generate(rng, tier, n):
     nbig = 0 if n < 1000 else (2 if tier == "quick" else 12)
     nlarge = n // 400 if tier == "quick" else n // 1000      # Coq cost is cubic in the number of entries
     nchurn = n // 160 if tier == "quick" else n // 600
+    nsteady = n // 330 if tier == "quick" else n // 1000
     # the 200 KB cases first so that their coqc jobs overlap with all the others; then a block of small cases (a
     # defect that shows on small histories is then reported and shrunk from those, cheaply); then the long ones
-    nsmall = n - nbig - nlarge - nchurn
+    nsmall = n - nbig - nlarge - nchurn - nsteady
     for i in range(nbig):
         yield _gen_big(rng, tier, i)
     for i in range(min(300, nsmall)):
@@ -249,6 +287,8 @@ def generate(rng, tier, n):
         yield _gen_large(rng, tier)
     for i in range(nchurn):
         yield _gen_churn(rng, tier)
+    for i in range(nsteady):
+        yield _gen_steady(rng, tier)
     for i in range(nsmall - min(300, nsmall)):
         yield _gen_q(rng, tier) if rng.random() < 0.78 else _gen_b(rng, tier)
 
